@@ -130,7 +130,7 @@ class Distogram:  # pragma: no cover
 # added for opteryx
 def load(bins: list, minimum, maximum):  # pragma: no cover
     dgram = Distogram()
-    dgram.bins = bins
+    dgram.bins = list(bins)
     dgram.min = minimum
     dgram.max = maximum
     dgram.diffs = []
